@@ -29,7 +29,9 @@ EXPLANATION = (
     'unique_together / index_together (which diff compares as ordered '
     'lists) keeps the order of the entries it keeps (no set / sorted on the '
     'way); '
-    'R-C05.6 also accepts the guard-clause spelling of __eq__ and a hash over tuple(self.x) for attributes compared through one normaliser on both sides.')
+    'R-C05.6 also accepts the guard-clause spelling of __eq__ and a hash over tuple(self.x) for attributes compared through one normaliser on both sides.'
+    ' '
+    'R-C05.8 precedence of the type-specific over the common attribute defaults in every reader that combines them.')
 NOT_DECIDED = (
     'Closure of diff -> hint -> simulate for all signature pairs (needs '
     'execution of the three functions on generated pairs).')
@@ -852,7 +854,147 @@ def r7_order_preserving_rewrites(ctx):
               2)
 
 
+def _defaults_kind(e):
+    """'C' for the common table (_ATTRIBUTE_DEFAULTS['*']), 'T' for a
+    type-specific one (_ATTRIBUTE_DEFAULTS[<type>] / .get(<type>, ...)),
+    through .copy() / dict(...)."""
+    if isinstance(e, ast.Call) and isinstance(e.func, ast.Attribute) and \
+            e.func.attr == 'copy' and not e.args:
+        return _defaults_kind(e.func.value)
+    if isinstance(e, ast.Call) and isinstance(e.func, ast.Name) and \
+            e.func.id in ('dict', 'OrderedDict') and len(e.args) == 1 and \
+            not e.keywords:
+        return _defaults_kind(e.args[0])
+    key = None
+    base = None
+    if isinstance(e, ast.Subscript):
+        base, key = e.value, e.slice
+    elif isinstance(e, ast.Call) and isinstance(e.func, ast.Attribute) and \
+            e.func.attr == 'get' and e.args:
+        base, key = e.func.value, e.args[0]
+    if base is None or not (isinstance(base, ast.Attribute) and
+                            base.attr == '_ATTRIBUTE_DEFAULTS'):
+        return None
+    if isinstance(key, ast.Constant):
+        return 'C' if key.value == '*' else None
+    return 'T'
+
+
+def _precedence_winner(f):
+    """Which table wins for a key present in both, in function f: 'T', 'C',
+    or None when f does not combine the two tables / in an unknown form."""
+    from ..util import expand_expr
+    fn = f.node
+    kinds_seen = set()
+    for n in walk_no_nested(fn):
+        if isinstance(n, (ast.Subscript, ast.Call)):
+            k = _defaults_kind(expand_expr(f, n))
+            if k:
+                kinds_seen.add(k)
+    if kinds_seen != {'T', 'C'}:
+        return None, None
+    # P1: for d in (e1, e2): first hit returns
+    for n in walk_no_nested(fn):
+        if isinstance(n, ast.For) and isinstance(n.iter, (ast.Tuple,
+                                                          ast.List)):
+            ks = [_defaults_kind(expand_expr(f, x)) for x in n.iter.elts]
+            if len(ks) == 2 and set(ks) == {'T', 'C'} and any(
+                    isinstance(x, ast.Return) for st in n.body
+                    for x in ast.walk(st)):
+                return ks[0], n
+    # P3: dict(e1, **e2) / {**e1, **e2}
+    for n in walk_no_nested(fn):
+        if isinstance(n, ast.Call) and isinstance(n.func, ast.Name) and \
+                n.func.id in ('dict', 'OrderedDict') and len(n.args) == 1:
+            stars = [kw.value for kw in n.keywords if kw.arg is None]
+            if len(stars) == 1:
+                k1 = _defaults_kind(expand_expr(f, n.args[0]))
+                k2 = _defaults_kind(expand_expr(f, stars[0]))
+                if {k1, k2} == {'T', 'C'}:
+                    return k2, n
+        if isinstance(n, ast.Dict) and len(n.keys) == 2 and \
+                all(k is None for k in n.keys):
+            k1, k2 = [_defaults_kind(expand_expr(f, v)) for v in n.values]
+            if {k1, k2} == {'T', 'C'}:
+                return k2, n
+        if isinstance(n, ast.Call) and call_name(n) == 'ChainMap' and \
+                len(n.args) == 2:
+            k1, k2 = [_defaults_kind(expand_expr(f, v)) for v in n.args]
+            if {k1, k2} == {'T', 'C'}:
+                return k1, n
+    # P4: e1.get(k, e2.get(k)) / e1.get(k, e2[k])
+    for n in walk_no_nested(fn):
+        if isinstance(n, ast.Call) and isinstance(n.func, ast.Attribute) and \
+                n.func.attr == 'get' and len(n.args) == 2:
+            k1 = _defaults_kind(expand_expr(f, n.func.value))
+            inner = n.args[1]
+            k2 = None
+            if isinstance(inner, ast.Call) and \
+                    isinstance(inner.func, ast.Attribute) and \
+                    inner.func.attr == 'get':
+                k2 = _defaults_kind(expand_expr(f, inner.func.value))
+            elif isinstance(inner, ast.Subscript):
+                k2 = _defaults_kind(expand_expr(f, inner.value))
+            if k1 and k2 and {k1, k2} == {'T', 'C'}:
+                return k1, n
+    # P2: x = <e1 copy>; x.update(<e2>)   (the last update wins)
+    for n in walk_no_nested(fn):
+        if isinstance(n, ast.Call) and isinstance(n.func, ast.Attribute) and \
+                n.func.attr == 'update' and len(n.args) == 1 and \
+                isinstance(n.func.value, ast.Name):
+            k2 = _defaults_kind(expand_expr(f, n.args[0]))
+            k1 = _defaults_kind(expand_expr(f, n.func.value))
+            if k1 and k2 and {k1, k2} == {'T', 'C'}:
+                return k2, n
+    # P5: e1[k] if k in e1 else e2[k]   /  if k in e1: return e1[k]
+    for n in walk_no_nested(fn):
+        if isinstance(n, (ast.IfExp, ast.If)) and \
+                isinstance(n.test, ast.Compare) and len(n.test.ops) == 1 and \
+                isinstance(n.test.ops[0], (ast.In, ast.NotIn)):
+            k = _defaults_kind(expand_expr(f, n.test.comparators[0]))
+            if k:
+                pos = isinstance(n.test.ops[0], ast.In)
+                return (k if pos else ('C' if k == 'T' else 'T')), n
+    return 'unknown', None
+
+
+def r8_defaults_precedence(ctx, rule_id='R-C05.8'):
+    """_ATTRIBUTE_DEFAULTS has a common table ('*') and per-field-type
+    tables that override it (db_index is False in general and True for
+    ForeignKey/OneToOneField).  Every reader that combines the two must let
+    the type-specific entry win - the writer of a signature
+    (_get_defaults_for_field_type, used by from_field) and the readers
+    (get_attr_default, used by diff / get_attr_value) otherwise disagree on
+    what an omitted attribute means: a ForeignKey's index change is then
+    invisible to the diff and produces no SQL."""
+    ctx.rule(rule_id)
+    p = ctx.program
+    cls = p.cls(SIG, 'FieldSignature')
+    n = 0
+    for f in cls.methods.values():
+        win, node = _precedence_winner(f)
+        if win is None:
+            continue
+        n += 1
+        if win == 'T':
+            ctx.ok(f, 'type-specific defaults override the common ones', node)
+        elif win == 'C':
+            ctx.finding(f, node, '%s lets the common defaults '
+                        '(_ATTRIBUTE_DEFAULTS[\'*\']) win over the '
+                        'field-type-specific ones: db_index of a '
+                        'ForeignKey/OneToOneField reads as False when '
+                        'omitted, while from_field() omitted it because it '
+                        'is True' % f.qualname,
+                        key='common-defaults-win')
+        else:
+            ctx.infos.append('%s: %s combines the two default tables in a '
+                             'form the precedence matcher does not know; '
+                             'not decided' % (rule_id, f.qualname))
+    ctx.floor('readers combining common and type-specific defaults', n, 1)
+
+
 def run(ctx):
+    r8_defaults_precedence(ctx)
     r7_order_preserving_rewrites(ctx)
     r6_hash_agrees_with_eq(ctx)
     r5_no_stale_loop_variable(ctx)
